@@ -141,13 +141,6 @@ func init() {
 	})
 }
 
-func trunc(b []byte, n int) []byte {
-	if len(b) > n {
-		return append(append([]byte(nil), b[:n]...), "..."...)
-	}
-	return b
-}
-
 func sortedIntStrings(xs []string) []string {
 	ns := make([]int, len(xs))
 	for i, x := range xs {
